@@ -1,15 +1,21 @@
 #!/bin/bash
-# tools/run_seeded.sh <patch.diff> <ID> [<ID>...] : runs the given checks (quick tier) against a scratch copy of /repo with the patch applied
+# tools/run_seeded.sh <patch.diff> <ID> [<ID>...] : runs the given checks (quick tier) against a scratch copy of /repo with the patch
+# applied. Uses its own build tree and its own evidence/replay root, so nothing of the real tree's outputs is touched; the scratch
+# copy keeps file times, so only harnesses that depend on the patched headers are rebuilt.
 P="$1"; shift
-S=/var/tmp/seeded_run_$$
-rm -rf $S; mkdir -p $S; cp -r /repo/include /repo/config /repo/CMakeLists.txt $S/
-( cd $S && git init -q . 2>/dev/null; git apply --unsafe-paths --directory=$S "$P" 2>/dev/null || patch -s -p1 -d $S < "$P" ) || { echo "cannot apply $P"; rm -rf $S; exit 2; }
+S=/var/tmp/seeded_repo; BLD=/var/tmp/seeded_build; RT=/var/tmp/seeded_root
+mkdir -p $S $BLD $RT
+rsync -a --delete /repo/include /repo/config /repo/CMakeLists.txt $S/
+[ -f $S/.patched ] && (cd $S && xargs -r touch < .patched)      # files restored from an earlier mutant must look modified
+( cd $S && git apply --unsafe-paths --numstat "$P" 2>/dev/null | awk '{print $3}' > .patched; git apply --unsafe-paths "$P" 2>/dev/null || patch -s -p1 < "$P" ) || { echo "cannot apply $P"; exit 2; }
+cp /verif/known_findings.jsonl $RT/; rm -rf $RT/replay $RT/evidence
 cd /verif
 for id in "$@"; do
-  SMOOTH_REPO=$S bin/check $id quick > $S/$id.log 2>&1; rc=$?
-  nv=$(grep -c '^VIOLATION' $S/$id.log)
-  first=$(grep -m1 '^  #' $S/$id.log | cut -c1-260)
+  VERIF_ROOT=$RT VERIF_BUILD=$BLD SMOOTH_REPO=$S bin/check $id quick > $RT/$id.log 2>&1; rc=$?
+  nv=$(grep -c '^VIOLATION' $RT/$id.log)
+  first=$(grep -m1 '^  #' $RT/$id.log | cut -c1-260)
   echo "SEEDED $(basename $(dirname $P)) check=$id rc=$rc violation_lines=$nv :: $first"
-  rm -rf /verif/replay/$id
 done
-rm -rf $S
+# restore the scratch copy (and mark the restored files as changed for the next run)
+rsync -a --delete /repo/include /repo/config /repo/CMakeLists.txt $S/ --exclude .patched
+(cd $S && [ -f .patched ] && xargs -r touch < .patched)
